@@ -309,7 +309,7 @@ def _concat_extra():
         v.hooks = C._keys_hooks()
     C.methods['keys'] = kv
     sv = Variant('str', params={'item': 'key'}, requires=lambda S: self_view(S).keys,
-                 post=post_getitem_key(self_view), props=('C03',), loops={'1': C._str_inv}, hooks=C._keys_hooks())
+                 post=post_getitem_key(self_view), props=('C03', 'C14'), loops={'1': C._str_inv}, hooks=C._keys_hooks())
     C.methods['__getitem__'] = list(C.methods['__getitem__']) + [sv]
 
 
